@@ -121,10 +121,9 @@ func (c *chatHandler) handleKeyedCommand(packet *chat.KeyedPlayerCommand) error 
 			if !packet.Unsigned && commandToRun == packet.Command {
 				return packet
 			} else {
-				if !packet.Unsigned && playerKey != nil && keyrevision.RevisionIndex(playerKey.KeyRevision()) >= keyrevision.RevisionIndex(keyrevision.LinkedV2) {
-					if c.disconnectIllegalProtocolState(c.player) {
-						c.log.Info("A plugin tried to deny a command with signable component(s). This is not supported with forceKeyAuthentication enabled.")
-					}
+				if !packet.Unsigned && playerKey != nil && keyrevision.RevisionIndex(playerKey.KeyRevision()) >= keyrevision.RevisionIndex(keyrevision.LinkedV2) &&
+					c.disconnectIllegalProtocolState(c.player) {
+					c.log.Info("A plugin tried to deny a command with signable component(s). This is not supported with forceKeyAuthentication enabled.")
 					return nil
 				}
 				return (&chat.Builder{
